@@ -52,6 +52,8 @@ STAGES = {
             # messages without recipients in a batch (refused locally, nothing on the wire)
             ('send-3x1-b1-no-recipients', 'Session', cfg(N='3', MAXR='1', MINR='0', BUDGET='1', CAPSETS='{{}}')),
             # a reply that arrives after the client gave up waiting for it (the silent server answers three timeouts later)
+            # extension keywords spelled in lower case: whatever the client makes of them, what it sends must fit what it declares
+            ('send-2x1-b0-lower-case-keywords', 'Session', cfg(MAXR='1', BUDGET='0', CAPSETS='{{}}', ENC8='BOOLEAN', DSNS='{"off", "both"}', VARIANTS='{"lowercaps"}')),
             # every positive reply of the server is a multi-line reply (RFC 5321 4.2.1 allows it for any reply)
             ('send-2x2-b1-multiline-ok', 'Session', cfg(BUDGET='1', CAPSETS='{{}, {"8BITMIME", "DSN"}}', CLASSES='{"p5", "drop"}', VARIANTS='{"multiok"}')),
             ('send-2x1-b1-late-reply', 'Session', cfg(N='2', MAXR='1', BUDGET='1', CAPSETS='{{}}', CLASSES='{"stall"}', VARIANTS='{"latereply"}')),
@@ -254,6 +256,10 @@ STAGES = {
                 POLICIES='{"mandatory", "opportunistic", "none"}', STARTTLSADV='BOOLEAN', HOSTKINDS='{"localhost", "other"}', HANDSHAKES='{"ok", "untrusted"}',
                 AUTHTYPES='{"NOAUTH", "PLAIN", "LOGIN", "AUTODISCOVER"}',
                 AUTHLISTS='{{"PLAIN", "LOGIN"}, {"PLAIN", "LOGIN", "CRAM-MD5"}, {"PLAIN", "LOGIN", "CRAM-MD5", "XOAUTH2", "SCRAM-SHA-1", "SCRAM-SHA-256", "SCRAM-SHA-1-PLUS", "SCRAM-SHA-256-PLUS"}}')),
+            # another Client for another host is created after this one; both keep their default TLS configuration
+            ('another-client-for-another-host', 'Session', cfg(OP='"DialAndSend"', N='1', MAXR='1', BUDGET='0', CAPSETS='{{}}', VARIANTS='{"otherclient"}',
+                POLICIES='{"mandatory", "opportunistic"}', STARTTLSADV='{TRUE}', HANDSHAKES='{"ok", "wrongname", "untrusted"}',
+                AUTHTYPES='{"NOAUTH", "PLAIN"}', AUTHLISTS='{{"PLAIN", "LOGIN"}}')),
             # a tls.Config object without server name shared with another Client (for another host) of the application
             ('shared-tls-config', 'Session', cfg(OP='"DialAndSend"', N='1', MAXR='1', BUDGET='0', CAPSETS='{{}}', VARIANTS='{"sharedcfg"}',
                 POLICIES='{"mandatory", "opportunistic"}', STARTTLSADV='{TRUE}', HANDSHAKES='{"wrongname", "untrusted"}',   # (a config that names no server fails every handshake today)
